@@ -33,6 +33,8 @@ type sortTerm struct {
 
 func (s sortTerm) node() *ast.Node {
 	switch s.kind {
+	case "uminus": // written with the unary minus: ^(>-k1)
+		return ast.N(ast.Neg, ast.NameN(s.member))
 	case "neg":
 		return ast.BinN("*", ast.NameN(s.member), ast.NumN(-1))
 	case "concat":
@@ -49,12 +51,15 @@ func (s sortTerm) key(item val.Value) (val.Value, bool, string) {
 		return v, ok
 	}
 	switch s.kind {
-	case "neg":
+	case "neg", "uminus":
 		v, ok := get(s.member)
 		if !ok {
 			return val.U, false, ""
 		}
 		if v.K != val.Num {
+			if s.kind == "uminus" {
+				return val.U, false, "EvalError:ErrNonNumberRHS"
+			}
 			return val.U, false, "EvalError:ErrNonNumberLHS"
 		}
 		return val.N(v.N * -1), true, ""
@@ -352,6 +357,8 @@ func genSortTerms(t *rapid.T) []sortTerm {
 		switch rapid.IntRange(0, 7).Draw(t, "termKind") {
 		case 0:
 			terms[i].kind = "neg"
+		case 2:
+			terms[i].kind = "uminus"
 		case 1:
 			terms[i].kind = "concat"
 			terms[i].other = rapid.SampledFrom(members).Draw(t, "m2")
